@@ -1443,7 +1443,7 @@ def rule_U9(ctx, rule: str = "U9") -> None:
             gens |= {t.id for t in n.targets if isinstance(t, ast.Name)}
     for n in ast.walk(fn):
         if isinstance(n, ast.Assign) and isinstance(n.value, ast.Call) and isinstance(n.value.func, ast.Name) and n.value.func.id == "next" and n.value.args \
-                and isinstance(n.value.args[0], ast.Name) and n.value.args[0].id in gens:
+                and ((isinstance(n.value.args[0], ast.Name) and n.value.args[0].id in gens) or (isinstance(n.value.args[0], ast.Call) and isinstance(n.value.args[0].func, ast.Name) and n.value.args[0].func.id in readers)):
             recs |= {t.id for t in n.targets if isinstance(t, ast.Name)}
         if isinstance(n, ast.For) and isinstance(n.target, ast.Name) and ((isinstance(n.iter, ast.Name) and n.iter.id in gens) or any(
                 isinstance(c, ast.Call) and isinstance(c.func, ast.Name) and c.func.id in readers for c in ast.walk(n.iter))):
@@ -1453,7 +1453,7 @@ def rule_U9(ctx, rule: str = "U9") -> None:
     # what load reads before the first record is taken belongs to the frame's length prefix (S3 decides that part)
     wire_loops = [lp for lp in ast.walk(fn) if isinstance(lp, (ast.For, ast.While)) and (
         (isinstance(lp, ast.For) and isinstance(lp.target, ast.Name) and lp.target.id in recs) or any(
-            isinstance(c, ast.Call) and isinstance(c.func, ast.Name) and c.func.id == "next" and c.args and isinstance(c.args[0], ast.Name) and c.args[0].id in gens for c in ast.walk(lp)))]
+            isinstance(c, ast.Call) and isinstance(c.func, ast.Name) and c.func.id == "next" and c.args and ((isinstance(c.args[0], ast.Name) and c.args[0].id in gens) or (isinstance(c.args[0], ast.Call) and isinstance(c.args[0].func, ast.Name) and c.args[0].func.id in readers)) for c in ast.walk(lp)))]
     first_loop_line = min((lp.lineno for lp in wire_loops), default=None)
     if first_loop_line is not None:
         direct = [n for n in direct if n.lineno >= first_loop_line]
@@ -1480,7 +1480,7 @@ def rule_U9(ctx, rule: str = "U9") -> None:
     def is_wire_loop(lp) -> bool:
         if isinstance(lp, ast.For) and isinstance(lp.target, ast.Name) and lp.target.id in recs:
             return True
-        return any(isinstance(c, ast.Call) and isinstance(c.func, ast.Name) and c.func.id == "next" and c.args and isinstance(c.args[0], ast.Name) and c.args[0].id in gens
+        return any(isinstance(c, ast.Call) and isinstance(c.func, ast.Name) and c.func.id == "next" and c.args and ((isinstance(c.args[0], ast.Name) and c.args[0].id in gens) or (isinstance(c.args[0], ast.Call) and isinstance(c.args[0].func, ast.Name) and c.args[0].func.id in readers))
                    for c in ast.walk(lp))
 
     n_br = 0
